@@ -342,15 +342,20 @@ def phcnames(binary, out, names):
     subprocess.run("mount -t tmpfs tmpfs /sys && mkdir -p /sys/class/net/eth0/device /sys/bus/pci/devices/0000:00:05.0 && echo PCI_SLOT_NAME=0000:00:05.0 > /sys/class/net/eth0/device/uevent", shell=True, check=True)
     attr = "/sys/bus/pci/devices/0000:00:05.0/phc_error_bound"
     res = []
-    for name in names:
-        for present in (True, False):
+    for ni, name in enumerate(names):
+        # the attribute reads 5000000, is absent, or (first name of each run) reads back without a value:
+        # empty, a lone newline, blanks, something that is not a number
+        for present in (True, False) + (("", "\n", "  \n", "n/a\n") if ni == 0 else ()):
             try:
                 os.unlink(SHM)
             except OSError:
                 pass
-            if present:
+            if present is True:
                 with open(attr, "w") as f:
                     f.write("5000000\n")
+            elif present is not False:
+                with open(attr, "w") as f:
+                    f.write(present)
             else:
                 try:
                     os.unlink(attr)
@@ -374,7 +379,7 @@ def phcnames(binary, out, names):
             chronyd.stop = True
             chronyd.set_mode("absent")
             err = p.stderr.read().decode(errors="replace")[-300:]
-            res.append({"name": name, "attribute_present": present, "exit_code": rc, "chronyd_requests": chronyd.requests, "records_seen": [[k[0], k[1], v] for k, v in seen.items()], "stderr_tail": err if not seen else ""})
+            res.append({"name": name, "attribute_present": present is True, "attribute_content": None if present in (True, False) else present, "exit_code": rc, "chronyd_requests": chronyd.requests, "records_seen": [[k[0], k[1], v] for k, v in seen.items()], "stderr_tail": err if not seen else ""})
     json.dump(res, open(out, "w"))
 
 
